@@ -549,6 +549,18 @@ func (ex *Exec) set(s *State, name string, t *Term) {
 	}
 }
 
+// setAt is set for a write into the object ref: writes to objects allocated
+// during the current collect run are not part of the caller-visible write set.
+func (ex *Exec) setAt(s *State, name string, t *Term, ref *Term) {
+	s.heap[name] = t
+	if _, ok := arrSorts[name]; !ok {
+		arrSorts[name] = t.Sort
+	}
+	if ex.written != nil && !(ref != nil && ex.freshRefs[ref]) {
+		ex.written[name] = t.Sort
+	}
+}
+
 func (ex *Exec) havocArr(s *State, name string) {
 	srt, ok := arrSorts[name]
 	if !ok {
@@ -575,10 +587,10 @@ func (ex *Exec) leafSet(s *State, a *Addr, lp string, v *Term) {
 	srt := v.Sort
 	switch a.Kind {
 	case AObj:
-		ex.set(s, name, Store(s.get(name, SArr(SRef, srt)), a.Obj, v))
+		ex.setAt(s, name, Store(s.get(name, SArr(SRef, srt)), a.Obj, v), a.Obj)
 	case AElem:
 		arr := s.get(name, SArr(SRef, SArr(SInt, srt)))
-		ex.set(s, name, Store(arr, a.Obj, Store(Select(arr, a.Obj), a.Idx, v)))
+		ex.setAt(s, name, Store(arr, a.Obj, Store(Select(arr, a.Obj), a.Idx, v)), a.Obj)
 	default:
 		ex.set(s, name, v)
 	}
@@ -665,13 +677,13 @@ func (ex *Exec) mapSetRaw(s *State, m *types.Map, ref, key *Term, has *Term, v *
 	ks := keySort(m)
 	key = coerce(key, ks)
 	d := s.get(dom, SArr(SRef, SArr(ks, SBool)))
-	ex.set(s, dom, Store(d, ref, Store(Select(d, ref), key, has)))
+	ex.setAt(s, dom, Store(d, ref, Store(Select(d, ref), key, has)), ref)
 	ls := shapeLeaves(shapeOf(m.Elem()), "")
 	ts := v.leaves()
 	for i, l := range ls {
 		n := vn + "|" + l.path
 		arr := s.get(n, SArr(SRef, SArr(ks, l.sort)))
-		ex.set(s, n, Store(arr, ref, Store(Select(arr, ref), key, coerce(ts[i], l.sort))))
+		ex.setAt(s, n, Store(arr, ref, Store(Select(arr, ref), key, coerce(ts[i], l.sort))), ref)
 	}
 }
 
@@ -679,7 +691,7 @@ func (ex *Exec) mapUpdate(s *State, m *types.Map, ref, key *Term, v *Val) {
 	had := ex.mapHas(s, m, ref, key)
 	ln := ex.mapLenName(m)
 	la := s.get(ln, SArr(SRef, SInt))
-	ex.set(s, ln, Store(la, ref, Ite(had, Select(la, ref), Add(Select(la, ref), IntLit(1, SInt)))))
+	ex.setAt(s, ln, Store(la, ref, Ite(had, Select(la, ref), Add(Select(la, ref), IntLit(1, SInt)))), ref)
 	ex.mapSetRaw(s, m, ref, key, TTrue, v)
 }
 
@@ -687,7 +699,7 @@ func (ex *Exec) mapDelete(s *State, m *types.Map, ref, key *Term) {
 	had := ex.mapHas(s, m, ref, key)
 	ln := ex.mapLenName(m)
 	la := s.get(ln, SArr(SRef, SInt))
-	ex.set(s, ln, Store(la, ref, Ite(had, Sub(Select(la, ref), IntLit(1, SInt)), Select(la, ref))))
+	ex.setAt(s, ln, Store(la, ref, Ite(had, Sub(Select(la, ref), IntLit(1, SInt)), Select(la, ref))), ref)
 	ex.mapSetRaw(s, m, ref, key, TFalse, zeroVal(m.Elem()))
 }
 
@@ -696,15 +708,15 @@ func (ex *Exec) havocMap(s *State, m *types.Map, ref *Term) {
 	dom, vn := mapNames(m)
 	ks := keySort(m)
 	d := s.get(dom, SArr(SRef, SArr(ks, SBool)))
-	ex.set(s, dom, Store(d, ref, Fresh("hvdom", SArr(ks, SBool))))
+	ex.setAt(s, dom, Store(d, ref, Fresh("hvdom", SArr(ks, SBool))), ref)
 	for _, l := range shapeLeaves(shapeOf(m.Elem()), "") {
 		n := vn + "|" + l.path
 		arr := s.get(n, SArr(SRef, SArr(ks, l.sort)))
-		ex.set(s, n, Store(arr, ref, Fresh("hvval", SArr(ks, l.sort))))
+		ex.setAt(s, n, Store(arr, ref, Fresh("hvval", SArr(ks, l.sort))), ref)
 	}
 	ln := ex.mapLenName(m)
 	la := s.get(ln, SArr(SRef, SInt))
-	ex.set(s, ln, Store(la, ref, Fresh("hvlen", SInt)))
+	ex.setAt(s, ln, Store(la, ref, Fresh("hvlen", SInt)), ref)
 }
 
 // bytes ----------------------------------------------------------------------
@@ -714,7 +726,7 @@ func (ex *Exec) bytesOf(s *State, ref *Term) *Term {
 }
 
 func (ex *Exec) setBytes(s *State, ref, content *Term) {
-	ex.set(s, bytesArr, Store(s.get(bytesArr, SArr(SRef, SStr)), ref, content))
+	ex.setAt(s, bytesArr, Store(s.get(bytesArr, SArr(SRef, SStr)), ref, content), ref)
 }
 
 func slen(t *Term) *Term {
@@ -728,6 +740,9 @@ func slen(t *Term) *Term {
 
 func (ex *Exec) newRef(s *State, hint string) *Term {
 	r := Fresh("ref_"+hint, SRef)
+	if ex.freshRefs != nil {
+		ex.freshRefs[r] = true
+	}
 	s.assume(Eq(r, s.alloc))
 	s.assume(Gt(r, IntLit(0, SRef)))
 	s.alloc = Add(s.alloc, IntLit(1, SRef))
